@@ -106,10 +106,13 @@ func (g *GoChannel) Publish(topic string, messages ...*message.Message) error {
 	if g.config.Persistent {
 		g.persistedMessagesLock.Lock()
 		verifhook.At("gochannel.publish.before_persist", topic)
-		if _, ok := g.persistedMessages[topic]; !ok {
-			g.persistedMessages[topic] = make([]*message.Message, 0)
+		// persistedMessages is nil once Close has completed (a Publish can pass the closed check before that)
+		if g.persistedMessages != nil {
+			if _, ok := g.persistedMessages[topic]; !ok {
+				g.persistedMessages[topic] = make([]*message.Message, 0)
+			}
+			g.persistedMessages[topic] = append(g.persistedMessages[topic], messagesToPublish...)
 		}
-		g.persistedMessages[topic] = append(g.persistedMessages[topic], messagesToPublish...)
 		if verifhook.Enabled {
 			verifhook.At("gochannel.publish.persisted", append([]string{topic}, messagesToPublish.IDs()...)...)
 		}
@@ -353,7 +356,9 @@ func (g *GoChannel) Close() error {
 	verifhook.At("gochannel.close.waited")
 
 	g.logger.Info("Pub/Sub closed", nil)
+	g.persistedMessagesLock.Lock()
 	g.persistedMessages = nil
+	g.persistedMessagesLock.Unlock()
 	verifhook.At("gochannel.close.nil_persisted")
 
 	return nil
